@@ -103,6 +103,12 @@ C14(w) ==
        THEN <<"C14.ExactlyLevel", "sender transmitted to another address than the level's">>
   ELSE IF \E n \in Relays : Cardinality(Loads(FromNode(mc, T.nodes[n].name))) # Heard(mc, T.nodes[n].name)
        THEN <<"C14.RelayOnce", "a relaying node did not re-broadcast each received multicast frame exactly once">>
+  ELSE IF \E n \in Relays : \E i \in Idx(mc) : mc[i].src = T.nodes[n].name /\ ~\E j \in Idx(w.pkts) : RxBy(w.pkts[j], T.nodes[n].name) /\ w.pkts[j].data = mc[i].data
+       THEN <<"C14.RelayOnce", "a relaying node re-broadcast something other than a frame it received">>
+  ELSE IF \E n \in Relays : \E j \in Idx(mc) : RxBy(mc[j], T.nodes[n].name) /\ ~\E i \in Idx(w.pkts) : w.pkts[i].src = T.nodes[n].name /\ w.pkts[i].data = mc[j].data
+       THEN <<"C14.RelayOnce", "a relaying node did not re-broadcast a multicast frame it received unchanged">>
+  ELSE IF \E i \in Idx(w.deqs) : ~(w.deqs[i].type = c.type /\ w.deqs[i].msg = c.msg /\ w.deqs[i]["from"] = c.src)
+       THEN <<"C14.ExactlyLevel", "a node queued something other than the multicast message">>
   ELSE IF \E n \in Relays : \E i \in Idx(mc) : mc[i].src = T.nodes[n].name /\ mc[i].addr # PhysAddr(LevelAddr(LvlOf(n) + 1), 0, T.prefix, T.suffix, TRUE)
        THEN <<"C14.RelayOnce", "relayed to another level than the next">>
   ELSE IF \E m \in Idx(T.nodes) : ~T.nodes[m].relay /\ m # sender /\ FromNode(mc, T.nodes[m].name) # <<>>
